@@ -1,20 +1,27 @@
 #!/bin/sh
-# Apply every kept seeded change to /repo in turn, run the property's quick check, undo.
-# Usage: tools/check_seeds.sh [id ...]    (needs a clean /repo working tree)
+# Apply every kept seeded (property-breaking) change to a scratch copy of /repo in turn and run
+# the property's check on it: every one must be reported.
+# Usage: tools/check_seeds.sh [-j N] [id ...]
 cd /verif
-if [ -n "$(git -C /repo status --porcelain)" ]; then echo "/repo working tree is not clean"; exit 2; fi
-ids="$*"; [ -z "$ids" ] && ids=$(ls seeded)
-rc=0
-for id in $ids; do
+export GOFLAGS=-mod=mod GOPROXY=off GOSUMDB=off GOTOOLCHAIN=local
+J=3
+if [ "$1" = "-j" ]; then J=$2; shift 2; fi
+if [ "$1" = "--one" ]; then
+  id=$2
   prop=$(python3 -c "import json;print(json.load(open('seeded/$id/meta.json'))['property'])")
   tier=$(python3 -c "import json;print(json.load(open('seeded/$id/meta.json')).get('tier','quick'))")
-  if ! git -C /repo apply /verif/seeded/$id/patch.diff; then echo "ERROR $id: patch does not apply"; rc=1; continue; fi
-  out=$(./check $prop --tier $tier --no-evidence 2>&1); ec=$?
-  git -C /repo checkout -- . ; git -C /repo clean -fdq
+  S=/var/tmp/verif-seed.$$
+  trap 'rm -rf $S' EXIT
+  mkdir -p $S
+  rsync -a --exclude .git --exclude examples --exclude docs --exclude files /repo/ $S/r/
+  if ! (cd $S/r && patch -p1 -s < /verif/seeded/$id/patch.diff); then echo "ERROR $id: patch does not apply"; exit 1; fi
+  out=$(./check $prop --tier $tier --repo $S/r --no-evidence 2>&1); ec=$?
   if [ $ec -eq 1 ] && echo "$out" | grep -q "VIOLATION property=$prop"; then
-    echo "caught $id [$prop/$tier]: $(echo "$out" | grep -m1 'refuted obligation\|VIOLATION' | cut -c1-160)"
-  else
-    echo "MISSED $id [$prop/$tier] exit=$ec"; rc=1
+    echo "caught $id [$prop/$tier]: $(echo "$out" | grep -m1 'refuted obligation\|no longer\|missing' | cut -c1-150)"
+    exit 0
   fi
-done
-exit $rc
+  echo "MISSED $id [$prop/$tier] exit=$ec carried=$(echo "$out" | grep -c '^carried over')"
+  exit 1
+fi
+ids="$*"; [ -z "$ids" ] && ids=$(ls seeded)
+echo $ids | tr ' ' '\n' | xargs -P $J -I{} $0 --one {} | sort -k2
